@@ -61,10 +61,11 @@ Definition expectation_rejected (c : cfg) (r : req) : bool :=
 
 (* the server may answer this request itself (error / 417 ...) instead of calling the handler *)
 Definition may_refuse (c : cfg) (r : req) : bool :=
-  (c_getonly c && negb (r_getlike r))
+  negb (r_uri_ok r)
+  || (c_getonly c && negb (r_getlike r))
   || expectation_rejected c r
   || negb (well_framed r)
-  || (c_max c <? data_len (r_fr r))
+  || (emax c r <? data_len (r_fr r))
   || match r_mp r with Some false => true | _ => false end.
 
 (* observed trace: E100 / EDispatch / EResp / EHijack only *)
